@@ -1611,6 +1611,29 @@ class StateEngine(object):
             context["State"] = {"Name": None}
         current_state = context["State"].get("Name")
 
+        if ((current_state or "Branch" in context["State"]) and not redelivered
+            and state_machine_type == "STANDARD"):
+            """
+            An event of an execution that has already ended, e.g. one from a
+            Branch of a failed Map or Parallel state that was still queued
+            when the expiry back stop released what was being held for that
+            state: drop it. Handling it would collect results for a join that
+            can no longer complete, and the next back stop would then end the
+            execution a second time. (A redelivered event is handled as
+            before: it may be the very event that ended the execution, whose
+            handling was cut short before the notification was published.)
+            """
+            ended_execution = context.get("Execution")
+            if isinstance(ended_execution, dict):
+                ended_execution = self.executions.get(ended_execution.get("Id"))
+                if (ended_execution and
+                    ended_execution.get("status") not in (None, "RUNNING")):
+                    self.log_and_drop(
+                        "execution {} has already ended",
+                        context["Execution"]["Id"], id
+                    )
+                    return
+
         if not current_state and "Branch" not in context["State"]:
             """
             If current_state is uninitialised it means we are the Start State.
